@@ -84,13 +84,14 @@ def fork(res, row_func, num_processors, predicate):
     for row in res:
         if predicate(row):
             q_in = mp.Queue()
+            q_internal = queue.Queue()
+            # The workers are forked before any helper thread runs: a lock held by such a thread at the
+            # moment of the fork (upstream code logging, a queue's feeder) would stay locked in the workers
+            processes, t_fetch = init_mp(num_processors, row_func, q_in, q_internal)
             # this row is selected: it goes to the workers without asking the predicate about it again
             q_in.put(row)
-            q_internal = queue.Queue()
             t_prod = threading.Thread(target=producer, args=(res, q_in, q_internal, num_processors, predicate))
             t_prod.start()
-
-            processes, t_fetch = init_mp(num_processors, row_func, q_in, q_internal)
 
             while True:
                 row = q_internal.get()
